@@ -30,17 +30,31 @@ def sh(cmd, cwd=None, env=None, timeout=None, stdin=None):
 
 # ---------------------------------------------------------------- builds
 
+# The tree under verification.  Always /repo for the registered commands; VERIF_REPO exists only so that the machinery
+# itself can be developed against a pristine copy while seeded changes are being applied to /repo.
+REPO = os.environ.get("VERIF_REPO", "/repo")
+
+def modfile_args(root, gdir):
+    """go.sum next to the module; when REPO is not /repo, an alternative go.mod whose replace points at it"""
+    shutil.copyfile(os.path.join(REPO, "go.sum"), os.path.join(gdir, "go.sum"))
+    if REPO == "/repo":
+        return []
+    alt = os.path.join(root, "build", "alt_" + os.path.basename(gdir) + ".mod")
+    open(alt, "w").write(open(os.path.join(gdir, "go.mod")).read().replace("=> /repo", "=> " + REPO))
+    shutil.copyfile(os.path.join(REPO, "go.sum"), alt[:-4] + ".sum")
+    return ["-modfile=" + alt]
+
 def build_harness(root):
     """Build the Go harness against /repo's current working tree."""
     os.makedirs(os.path.join(root, "build"), exist_ok=True)
     hdir = os.path.join(root, "harness")
     with Lock(os.path.join(root, "build", ".golock")):
-        shutil.copyfile("/repo/go.sum", os.path.join(hdir, "go.sum"))
-        rc, out = sh(["go", "build", "-tags", "verif", "-o", os.path.join(root, "build", "harness"), "."],
+        mf = modfile_args(root, hdir)
+        rc, out = sh(["go", "build"] + mf + ["-tags", "verif", "-o", os.path.join(root, "build", "harness"), "."],
                      cwd=hdir, env=GOENV, timeout=600)
         if rc == 0:
             # the command-line converters, built from the working tree too (C10)
-            rc2, out2 = sh(["go", "build", "-o", os.path.join(root, "build", "refmt-cli"), "./cmd/refmt"], cwd="/repo", env=GOENV, timeout=600)
+            rc2, out2 = sh(["go", "build", "-o", os.path.join(root, "build", "refmt-cli"), "./cmd/refmt"], cwd=REPO, env=GOENV, timeout=600)
             if rc2 != 0:
                 rc, out = rc2, out + out2
     return rc == 0, out
@@ -51,13 +65,13 @@ def build_extract(root):
     if not os.path.isdir(xdir):
         return True, "no extractor"
     with Lock(os.path.join(root, "build", ".golock")):
-        shutil.copyfile("/repo/go.sum", os.path.join(xdir, "go.sum"))
-        rc, out = sh(["go", "build", "-o", os.path.join(root, "build", "extract"), "."], cwd=xdir, env=GOENV, timeout=600)
+        mf = modfile_args(root, xdir)
+        rc, out = sh(["go", "build"] + mf + ["-o", os.path.join(root, "build", "extract"), "."], cwd=xdir, env=GOENV, timeout=600)
         if rc != 0:
             return False, out
         gen = os.path.join(root, "lean", "RefmtModel", "Gen")
         os.makedirs(gen, exist_ok=True)
-        rc, out = sh([os.path.join(root, "build", "extract"), "/repo", gen], timeout=300)
+        rc, out = sh([os.path.join(root, "build", "extract"), REPO, gen], timeout=300)
     return rc == 0, out
 
 def lake_build(root, targets, timeout=3000):
@@ -228,7 +242,8 @@ def build_harness_race(root):
     """The same harness built with the race detector (C18)."""
     hdir = os.path.join(root, "harness")
     with Lock(os.path.join(root, "build", ".golock")):
-        rc, out = sh(["go", "build", "-race", "-tags", "verif", "-o", os.path.join(root, "build", "harness-race"), "."],
+        mf = modfile_args(root, hdir)
+        rc, out = sh(["go", "build"] + mf + ["-race", "-tags", "verif", "-o", os.path.join(root, "build", "harness-race"), "."],
                      cwd=hdir, env=GOENV, timeout=900)
     return rc == 0, out
 
